@@ -561,16 +561,30 @@ def _longname(total):
     return ".".join(parts)
 
 
-def overlong(kind: int, i: int, dot: bool, comp: bool) -> bool:
+POSITIONS = ["first", "middle", "last", "only"]
+
+
+def overlong(kind: int, i: int, pos: int, dot: bool, comp: bool, mx: bool) -> bool:
     """
-    pre: 0 <= kind <= 1 and 0 <= i < 20
+    pre: 0 <= kind <= 1 and 0 <= i < 20 and 0 <= pos <= 3
     post: _
     """
     if kind == 0:
+        # one label of n bytes as the first / a middle / the last / the only label of the name
         n = _pick(i, LABS)
-        name = "x." + "a" * n + ".org"
+        where = _pick(pos, POSITIONS)
+        lab = "a" * n
+        if where == "first":
+            name = lab + ".x.org"
+        elif where == "middle":
+            name = "x." + lab + ".org"
+        elif where == "last":
+            name = "x.y." + lab
+        else:
+            name = lab
         ok = n <= 63
         want = name
+        name = name + ("." if dot else "")
     else:
         total = _pick(i, TOTALS)
         name = _longname(total) + ("." if dot else "")
@@ -581,8 +595,14 @@ def overlong(kind: int, i: int, dot: bool, comp: bool) -> bool:
     cd = None
     if comp:
         cd = {}
+    skip = 0
     try:
-        L.Name(b(name)).encode(io, cd)
+        if mx:
+            # the same name as the exchange of an MX record (2 bytes of preference first)
+            L.Record_MX(10, b(name), 5).encode(io, cd)
+            skip = 2
+        else:
+            L.Name(b(name)).encode(io, cd)
         refused = False
     except Exception:
         refused = True
@@ -592,8 +612,11 @@ def overlong(kind: int, i: int, dot: bool, comp: bool) -> bool:
         return refused
     if refused:
         return False
-    out, end = _dec_names("\0" * HS + t(io.getvalue()), 1)
-    return out == [want] and end == HS + len(want) + 2
+    io2 = L.BytesIO(b("\0" * HS + t(io.getvalue())))
+    io2.seek(HS + skip)
+    nm = L.Name()
+    nm.decode(io2)
+    return t(nm.name) == want and io2.tell() == HS + skip + len(want) + 2
 
 
 def _stream_io(parts):
@@ -792,7 +815,8 @@ HARNESSES = [
       timeout={"quick": 90, "thorough": 1200}),
     H(trunc, shards=lambda tier: [("nq == 1",)] if tier == "quick" else [("nq == 0",), ("nq == 1",)],
       timeout={"quick": 120, "thorough": 900}),
-    H(overlong, shards=[("kind == 0",), ("kind == 1", "i < %d" % len(TOTALS))]),
+    H(overlong, shards=[("kind == 0", "pos <= 1"), ("kind == 0", "pos >= 2"),
+                        ("kind == 1", "pos == 0", "i < %d" % len(TOTALS))]),
     H(ptr_bytes, shards=[("whole",), ("not whole",)]),
     H(ptr_decode, shards=[("whole",), ("not whole",)], timeout={"quick": 90, "thorough": 600}),
     H(ptr_boundary, timeout={"quick": 90, "thorough": 600}),
@@ -822,9 +846,13 @@ VECTORS = {
     "ptr_decode": [(0, "ab", True), (7, "ab", False), (8, "ab", True), (15, "\xc0\x0c", False), (11, "q\x00", False)],
     "ptr_boundary": [(0, "ab", "c"), (6, "ab", "c"), (8, "ab", "c"), (9, "ab", "c"), (3, "\xc0\x00", "\xff"), (11, "ab", "a")],
     "msg_big": [(0, 300, "\x0a\x00"), (2, 4294967295, "ab"), (3, 1, "ab"), (4, 5, "\x01\x02")],
-    "overlong": [(0, 3, False, True), (0, 5, False, False), (0, 6, False, True), (0, 14, False, True), (0, 17, False, False),
-                 (1, 0, False, True), (1, 5, False, True), (1, 5, True, False), (1, 6, False, True), (1, 6, True, True),
-                 (1, 15, False, False)],
+    "overlong": [(0, 3, 1, False, True, False), (0, 5, 1, False, False, False), (0, 6, 1, False, True, True),
+                 (0, 14, 0, False, True, False), (0, 17, 3, False, False, False), (0, 5, 2, False, True, False),
+                 (0, 6, 2, False, True, False), (0, 6, 3, False, False, False), (0, 6, 2, True, False, True),
+                 (0, 13, 3, True, True, False), (0, 16, 2, False, False, True), (0, 5, 3, True, True, True),
+                 (0, 6, 0, False, False, True), (1, 0, 0, False, True, False), (1, 5, 0, False, True, False),
+                 (1, 5, 0, True, False, True), (1, 6, 0, False, True, False), (1, 6, 0, True, True, False),
+                 (1, 15, 0, False, False, False)],
 }
 
 
